@@ -57,7 +57,7 @@ CLAIMED = {
   text="Theorems MlsVerif.Props.C16: a ciphertext of epoch m is admitted by an observer at epoch e with jitter j iff e <= m + j (window_exact), handshake messages only in "
        "the current epoch, the bound never underflows for any u64 epoch/jitter (no_underflow), jitter >= epoch admits everything, monotone in jitter, wrong group/version "
        "rejected. Tie: up to 6 observers per random history with public handshake (started at random epochs, every jitter class incl. > epoch, 2^63, 2^64-1, snapshot/"
-       "restore) must equal the members' context, roster and tree after every commit and must never panic; every ciphertext delivery is an `adm` row replayed on the model.",
+       "restore; own proposal cache by the builder's DEFAULT or application-side cache with cache_proposals(false)) must equal the members' context, roster and tree after every commit and must never panic; every ciphertext delivery is an `adm` row replayed on the model.",
   note="Trusted: Lean kernel, model validated by the `adm` correspondence, harness oracle for 'tracks the members'. That the observer's commit processing equals the members' "
        "is shown by the oracle and by the shared tree-layer model (C01/C08), not by a separate theorem. External proposals issued by the observer are not generated yet.",
   ref="DESIGN.md §4 C16"),
@@ -66,9 +66,10 @@ CLAIMED = {
   text="Theorems MlsVerif.Props.C17: for duplicate-free identity lists the re-init check holds iff the successor has exactly the old identities (any order, any old tree shape), "
        "the branch check iff subset; supersets and replaced identities are refused; joinChecks_ok_iff characterises every parameter check (version, suite, epoch 1, group id, "
        "extensions) with one lemma per mismatch; frozen_after_reinit. Tie: random old groups (2-7 members, interior blank leaves, re-keyed members) x successor kind x member set "
-       "(equal/subset/superset/replaced) on the real library: creation, every old member's join, outsider and plain-join refusal, freeze of the old group; `sub` rows replayed on the model.",
-  note="Trusted: Lean kernel; identities abstracted to numbers (IdentityProvider::identity); the resumption-PSK binding itself is cryptographic (C18/C13). Parameter-change "
-       "paths are proved on the model but only the unchanged-parameter path is exercised on the implementation.",
+       "(equal/subset/superset/replaced) on the real library: creation, every old member's join, outsider and plain-join refusal, freeze of the old group; a dishonest old member (hook ReinitClient::verif_deviate) creates the successor "
+       "with another group id / other extensions than announced and every old member's join must refuse it; `sub` rows (membership) and `join` rows (joinChecks verdict incl. error class) replayed on the model.",
+  note="Trusted: Lean kernel; identities abstracted to numbers (IdentityProvider::identity); the resumption-PSK binding itself is cryptographic (C18/C13). Group-id and extension "
+       "mismatches are exercised on the implementation; version / suite / epoch mismatches are proved on the model only (not constructible with the right PSK).",
   ref="DESIGN.md §4 C17"),
  "C04": dict(
   technique="Lean 4 proof (atomicity of well-ordered step lists) instantiated by `decide` at step lists GENERATED from the Rust source by a translator + rejection / fault sweeps with full-state comparison",
@@ -99,7 +100,8 @@ CLAIMED = {
        "(mem_get_eq_keyed, with the decide'd counterexample without contiguity); the in-memory and SQLite back ends give equal observations for every op sequence "
        "(backends_bisimilar); loading returns the stored state of the last write whatever happened after it (load_returns_last_write). Tie: subjects on both real providers "
        "follow the same traffic with random write / write+reload / crash points and a never-reloaded twin; every component of the loaded group is compared with the written "
-       "one and with the twin; each repository operation is a row replayed on the compiled model (stored ids, availability).",
+       "one and with the twin; each repository operation is a row replayed on the compiled model (stored ids, availability); each subject also CREATES a second group on the same "
+       "storage (stored history starts at epoch 0, one or two epochs per write) whose repository operations are model streams of their own (first trim of epoch 0 on either back end).",
   note="Trusted: Lean kernel, model validated by rows, harness. The byte-level snapshot round trip of the member state is C12's codec theorem + this check's component comparison; "
        "the SQLite transaction is one atomic step (assumption).",
   ref="DESIGN.md §4 C06/C19"),
@@ -184,8 +186,9 @@ CLAIMED = {
   text="Theorems MlsVerif.Props.C10 on the proposal-filter model (apply_proposals_from_member + batch_edit incl. the revert-all branch): send_accepted (for EVERY bundle, tree and committer, the "
        "bundle kept in send mode is accepted in receive mode with the same tree, added leaves and applied set), unused_agree / receivers_report_committed (the result is a function of strategy, "
        "committer, resolved bundle and tree), applied_sublist, by_value_kept, one `Enforced` lemma per RFC rule (offender by value => commit fails; by reference => dropped; received => rejected), "
-       "path_required_iff / path_required_agree, the canPropose sender/type table. Tie: every commit of random histories (valid + 8 kinds of offending by-reference proposals incl. colluding "
-       "updates with colliding HPKE keys, by-value extras) is a `filter send` and a `filter receive` row (tree, ordered bundle -> applied set, path flag | error) replayed on the compiled model; "
+       "path_required_iff / path_required_agree, the canPropose sender/type table. Tie: every commit of random histories (valid + 9 kinds of offending by-reference proposals incl. colluding "
+       "updates with colliding HPKE keys and Adds of key packages that are invalid by construction (hook Client::verif_generate_key_package_unchecked: default proposal / extension type "
+       "listed in the capabilities, expired lifetime; also tried by value), by-value extras) is a `filter send` and a `filter receive` row (tree, ordered bundle -> applied set, path flag | error) replayed on the compiled model; "
        "direct oracle: every receiver accepts and reports the committer's applied / unused proposals.",
   note="Trusted: Lean kernel; hand-written filter model validated by the rows; payload validity (signature, lifetime, capabilities, identity verdict, PSK presence) is an attribute of the abstract "
        "proposal. Group-context-extension and re-init mixes are proved on the model but not generated. Fixed defects found here: F1, F16 (revert-all lost leaves).",
